@@ -34,11 +34,12 @@ class Entry:
 
 
 class Call:
-    def __init__(self, fn, *args, **kwargs):
+    def __init__(self, fn, /, *args, **kwargs):          # positional-only: callee keywords named `self` / `fn` are allowed
         self.fn, self.args, self.kwargs = fn, list(args), dict(kwargs)
         self.opt = ""           # option string the spec's exemption table is keyed on (e.g. "copy=False")
         self.expect = "return"  # informational: "raise" for the deliberately invalid variants
         self.forms = []         # argument forms of mode numbers / per-mode options (vocabulary: Ownership.tla ArgForms)
+        self.first_call_overrides = None    # keyword overrides of a FIRST, failing call made on the same argument objects
 
     def form(self, *names):
         self.forms += list(names)
@@ -61,7 +62,7 @@ def entry(name, kinds=ARR, dtypes=FLOATS, inplace=None, out=None, tenalg=False):
         if tenalg:      # tenalg entries run under both tenalg backends
             ks = ks + [k + "@einsum" for k in kinds]
         inp, outs = inplace, out
-        if "#" in name:                     # a variant inherits the declarations of its API entry
+        if "#" in name and name.split("#")[0] in ENTRIES:      # a variant inherits the declarations of its API entry
             base = ENTRIES[name.split("#")[0]]
             inp = base.inplace if inplace is None else inplace
             outs = base.out if out is None else out
@@ -122,6 +123,17 @@ class B:
             a[last] *= 1e-5 if single else 1e-9
         elif r == "badcol2":
             a[last] *= 1e-7 if single else 1e-12
+        elif r == "negzero":         # negative zeros mixed with ordinary values
+            if a.flags.c_contiguous:
+                a.reshape(-1)[::3] = -0.0
+            else:
+                a[(Ellipsis, 0)] = -0.0
+        elif r == "subnormal":       # smallest subnormals mixed with ordinary values
+            sub = np.finfo(np.float32 if single else np.float64).smallest_subnormal
+            if a.flags.c_contiguous:
+                a.reshape(-1)[1::3] = sub
+            else:
+                a[(Ellipsis, 0)] = sub
         elif r == "ties":            # few distinct values, many exact ties
             a[...] = np.ceil(a.real) if nonneg else np.rint(a.real)
         return a
@@ -242,11 +254,12 @@ def akind(kind):
 from . import lib_entries_algebra      # noqa: E402,F401  (registers base / tenalg / factorised tensors)
 from . import lib_entries_decomp       # noqa: E402,F401  (registers decompositions / solvers / metrics / ...)
 from . import lib_entries_modes        # noqa: E402,F401  (registers the forms of mode numbers / per-mode options)
+from . import lib_entries_forms        # noqa: E402,F401  (call forms, aliasing, previous failure, size relations, flags, second entry points)
 
 
 # ----------------------------------------------------------------------------- enumeration
 # value regimes: additional kinds "<kind>~<regime>" for the entries whose code has data-dependent branches
-REGIMES = ("tiny", "huge", "zero", "zerocol", "zerorow", "badcol", "badcol2", "ties", "overrank")
+REGIMES = ("tiny", "huge", "zero", "zerocol", "zerorow", "badcol", "badcol2", "ties", "negzero", "subnormal", "overrank")
 REGIME_GROUPS = ("decomposition", "contrib", "solvers", "proximal", "tenalg", "metrics", "regression", "preprocessing",
                  "cp_tensor", "tucker_tensor", "parafac2_tensor")
 # kinds (besides the first one) that also run under every regime: the solvers' caller-supplied start points
@@ -325,8 +338,9 @@ def _quiet_fds():
             os.close(fd)
 
 
-def invoke(c):
-    """Run the call (under the requested tenalg backend).  Returns ('return', value) or ('raise', exc)."""
+def invoke(c, overrides=None):
+    """Run the call (under the requested tenalg backend).  Returns ('return', value) or ('raise', exc).
+    `overrides`: keyword arguments replacing / extending c.kwargs for this invocation only."""
     import warnings
     import tensorly as tl
     prev = None
@@ -339,7 +353,9 @@ def invoke(c):
             old = np.seterr(all="ignore")
             try:
                 with contextlib.redirect_stdout(io.StringIO()), _quiet_fds():    # tucker_mode_dot & co print; LAPACK's xerbla too
-                    return "return", c.fn(*c.args, **c.kwargs)
+                    kw = c.kwargs if not overrides else {**c.kwargs, **overrides}
+                    kw = {k: v for k, v in kw.items() if not (overrides and k in overrides and overrides[k] is None and k not in c.kwargs)}
+                    return "return", c.fn(*c.args, **kw)
             finally:
                 np.seterr(**old)
     except Exception as ex:           # the call's own exit by exception is an observation, not an error
